@@ -563,7 +563,7 @@ const maxExhaustive = 5
 func TestCheck(t *testing.T) {
 	cfg := mon.Load("C07")
 	rep := mon.NewReporter(cfg, "exploration",
-		"one case = one generated well-formed construction over a 12-type universe (concrete, pointer, struct, map, slice, any, two interfaces, a named map and a named slice next to their unnamed literal forms; types partly hostile incl. such near misses) built through one of three front ends: Graph (edge/branch calls in every order for ≤5 calls, else 200 random orders, nodes up-front / reversed / lazily, each order 3×), Chain (nodes, Parallels with keyed lambdas / nested graphs / pass-through nodes, ChainBranches; 6 identical builds) and Workflow (inputs with and without field mappings from/to struct fields and map keys, AddBranch with data-only inputs of its ends, ≤12 orders × 4 identical builds because Compile resolves the declarations in map order). Node kinds: invokable and transformable lambdas, nested graphs, pass-through nodes, each with/without input and output keys and with typed state pre/post handlers in value and stream form that hand on what they received, another value of their declared type or a nil interface value; typed value/stream branches on START, nodes and pass-through nodes. Every accepted construction is run in Invoke and Stream with every legal dynamic input value × branch choices × emitted dynamic values (nil interface values between interface-typed ends included, never as a graph's final output); non-trivial = at least one order compiled and the construction contains a pass-through node, a branch or a may-assignable connection",
+		"one case = one generated well-formed construction over a 12-type universe (concrete, pointer, struct, map, slice, any, two interfaces, a named map and a named slice next to their unnamed literal forms; types partly hostile incl. such near misses) built through one of three front ends: Graph (edge/branch calls in every order for ≤5 calls, else 200 random orders, nodes up-front / reversed / lazily, each order 3×), Chain (nodes, Parallels with keyed lambdas / nested graphs / pass-through nodes, ChainBranches; 6 identical builds) and Workflow (inputs with and without field mappings from/to struct fields and map keys, AddBranch with data-only inputs of its ends, ≤12 orders × 4 identical builds because Compile resolves the declarations in map order). Node kinds: invokable and transformable lambdas, nested graphs, pass-through nodes, each with/without input and output keys and with typed state pre/post handlers in value and stream form that hand on what they received, another value of their declared type or a nil interface value; typed value/stream branches on START, nodes and pass-through nodes. Every accepted construction is run in Invoke and Stream with every legal dynamic input value × branch choices × emitted dynamic values (nil interface values between interface-typed ends included, never as a graph's final output); non-trivial = at least one order compiled and the construction contains a pass-through node, a branch or a may-assignable connection"+sharedBranchRule,
 		[]string{
 			"node, condition and handler bodies never fail by themselves and only forward errors they receive from the framework's streams, so every failure of a run over a compiled graph is the framework's",
 			"the reference lattice is what a type assertion accepts — identical type, or Implements for an interface target (must / may / must-not); distinct types with the same underlying type (map[string]any vs Vars, []string vs Names) are must-not, unlike reflect's AssignableTo; a nil interface value is assignable to every interface type and to no other; a connection is judged between the declared types of its two ends, a pass-through node carrying the type eino reports for it in GraphInfo provided that type is the type of a typed neighbour of the node's pass-through component (otherwise the node is transparent); a keyed side of a pass-through node has the declared type map[string]any",
@@ -579,7 +579,13 @@ func TestCheck(t *testing.T) {
 	n := int64(cfg.Pick(280, 2400))
 	rep.Cases(n, func(idx int64, rng *mon.Rand) {
 		runCase(rep, idx, rng)
+		if idx%sbEvery == 0 {
+			sharedBranchCase(rep, idx, rng.Sub("shared-branch")) // shared_branch_test.go
+		}
 	})
+	rep.Require("sb_graphs_accepted_with_a_shared_object_at_differing_positions", 20)
+	rep.Require("sb_runs_ok_behind_a_runtime_checked_shared_branch", 20)
+	rep.Require("sb_runs_expected_error_at_a_branch_of_the_source", 20)
 	rep.Require("attempts_accepted", 100)
 	rep.Require("runs_expected_error", 20)
 	rep.Require("runs_ok", 100)
